@@ -1,6 +1,9 @@
 """Call one engine primitive of the real library with both engines on one grid point (C15)."""
 from __future__ import annotations
 
+import json
+import zlib
+
 import os
 import sys
 
@@ -44,21 +47,27 @@ def engines():
     return _ENG
 
 
-def conv(name, val, shape, eng):
-    """abstract argument -> what the element layer would pass to this engine"""
+def conv(name, val, shape, eng, ints=False):
+    """abstract argument -> what the element layer would pass to this engine; with `ints`, whole numbers are written
+    the way users write them: integer arrays / Python ints (NumPy engine only: CasADi's DM is always double)"""
     if name == "type":
         return val
     if isinstance(val, str) and val == "none":
         return None
+    whole = lambda z: float(z).is_integer() and abs(z) < 1e6  # noqa: E731
     if isinstance(val, list):
         arr = [num(z) for z in val]
-        return np.array(arr, float) if eng == "np" else cs.DM(arr)
+        if eng == "np":
+            return np.array([int(z) for z in arr], np.int64) if ints and arr and all(map(whole, arr)) else np.array(arr, float)
+        return cs.DM(arr)
     x = num(val)
     if name in STATE_ARGS:
         if eng == "np":
+            if ints and whole(x):
+                return np.int64(x) if shape == "scalar" else np.array([int(x)], np.int64)
             return np.float64(x) if shape == "scalar" else np.array([x], float)
         return cs.DM(x)
-    return x   # a parameter: a plain Python number
+    return int(x) if ints and eng == "np" and whole(x) else x   # a parameter: a plain Python number
 
 
 def flat(v):
@@ -68,11 +77,12 @@ def flat(v):
 def call(case, eng):
     e = engines()[eng]
     prim, a, shape = case["prim"], case["args"], case["shape"]
+    ints = zlib.crc32(json.dumps([prim, a, shape], sort_keys=True).encode()) % 3 == 0
     try:
         if prim == "max":
-            return {"ok": True, "err": "", "out": flat(e.max(0, conv("x", a["x"], shape, eng)))}
+            return {"ok": True, "err": "", "out": flat(e.max(0, conv("x", a["x"], shape, eng, ints)))}
         if prim == "vcat":
-            return {"ok": True, "err": "", "out": flat(e.vcat(conv("a", a["a"], shape, eng), conv("b", a["b"], shape, eng)))}
+            return {"ok": True, "err": "", "out": flat(e.vcat(conv("a", a["a"], shape, eng, ints), conv("b", a["b"], shape, eng, ints)))}
         grp, names = SIG[prim]
         args = []
         vsl = None
@@ -84,9 +94,9 @@ def call(case, eng):
             if n == "vsl":
                 args.append(vsl)
             elif n == "v_ctrl" and vsl is not None:
-                args.append(conv(n, [a[n][i] for i in vsl], shape, eng))
+                args.append(conv(n, [a[n][i] for i in vsl], shape, eng, ints))
             else:
-                args.append(conv(n, a[n], shape, eng))
+                args.append(conv(n, a[n], shape, eng, ints))
         return {"ok": True, "err": "", "out": flat(getattr(getattr(e, grp), prim)(*args))}
     except BaseException as ex:  # noqa: BLE001
         return {"ok": False, "err": f"{type(ex).__name__}: {str(ex)[:120]}", "out": []}
